@@ -1,9 +1,11 @@
 #!/bin/sh
-# usage: mutbatch.sh <out> <id...>   runs every seeded mutation of the given properties against its check
+# usage: [MUTROOT=/tmp/mut] [LETTERS="A B"] mutbatch.sh <out> <id...>
+# runs every seeded change of the given properties against its check (apply, check, undo)
 OUT="$1"; shift
+ROOT="${MUTROOT:-/tmp/mut}"; LET="${LETTERS:-A B}"
 for ID in "$@"; do
-  for M in A B; do
-    P=/tmp/mut/$ID-out/$M.patch.diff
+  for M in $LET; do
+    P=$ROOT/$ID-out/$M.patch.diff
     [ -f "$P" ] || continue
     echo "== $ID-$M" >> "$OUT"
     /verif/mutest.sh "$P" "$ID" >> "$OUT" 2>&1
